@@ -801,6 +801,8 @@ func (r *UnitRun) execRange(st *State, s *ast.RangeStmt, k func(*State)) {
 		s2.names = cloneNames(saved)
 		k(s2)
 	}
+	// the ranged slice is available to invariants as _r<N>
+	st.ghost[fmt.Sprintf("_r%d", n)] = x
 	// the counter
 	ghostName := fmt.Sprintf("_i%d", n)
 	var keyObj types.Object
